@@ -54,6 +54,7 @@ type dryCtx struct {
 }
 
 type Frame struct {
+	loopEntrySt map[int]*State // per loop ordinal: the state at loop entry (atloop)
 	v        *Verifier
 	fn       *ssa.Function
 	regs     map[ssa.Value]Value
@@ -84,6 +85,12 @@ type Frame struct {
 
 func (fr *Frame) clone() *Frame {
 	n := *fr
+	if fr.loopEntrySt != nil {
+		n.loopEntrySt = make(map[int]*State, len(fr.loopEntrySt))
+		for k, v := range fr.loopEntrySt {
+			n.loopEntrySt[k] = v
+		}
+	}
 	n.regs = make(map[ssa.Value]Value, len(fr.regs))
 	for k, v := range fr.regs {
 		n.regs[k] = v
